@@ -8,6 +8,7 @@ import Rare.Proofs.C08Math
 import Rare.Model.Expr.Std
 import Rare.Gen.Tables
 import Rare.Proofs.C08Guards
+import Rare.Proofs.C08Extra
 import Rare.Proofs.C11
 import Rare.Model.C02
 import Rare.Gen.C08
@@ -29,7 +30,10 @@ safe argument stages the builder neither panics at compile time nor returns a st
   regenerated from /repo (`Gen/C08.lean`), admits only safe arguments for all int64 inputs, and equals
   the guard of the hand model (`repeat_guard_safe`, `substr_bounds_safe`, `select_slices_safe`,
   `slice_bounds_safe`, `precision_guard_safe`, `divi_guard_safe`, `modi_guard_safe`,
-  `getmatch_bounds_safe`, `compile_escape_safe` and the `…_eq_model` / `…_eq_gen` ties).
+  `getmatch_bounds_safe`, `compile_escape_safe`, `bar_guard_safe` and the `…_eq_model` / `…_eq_gen` ties).
+* `ext_safe`, `world_compile_eval_total`: `color`, `bar`, `load`, `json` (`Funcs/Extra.lean`) are
+  panic-free in every world (any float arithmetic, colour/unicode switches, file system), assuming only
+  that the gjson library call returns.
 -/
 namespace Rare.C08
 open Rare.Expr
@@ -122,14 +126,68 @@ theorem user_function_safe (body : List Stage) (hb : ∀ s ∈ body, Safe s) :
         exact hargs _ (List.getElem_mem hlt)
       exact Safe.bind this ih
 
+/-! ### helpers that consult the world outside the template (`color`, `bar`, `load`, `json`) -/
+
+/-- The proved-safe helpers in a world `w` (float arithmetic, colour/unicode switches, file system, gjson). -/
+def safeTableW {α : Type} (w : Funcs.Extra.World α) : Table := safeTable ++ Funcs.Extra.table w
+
+/-- `color`, `bar`, `load`, `json` are safe builders in every world whose gjson call returns; with
+    `std_safe` every entry of `safeTableW w` is. -/
+theorem ext_safe {α : Type} (w : Funcs.Extra.World α) (hg : ∀ j p, Safe (w.gjson j p)) :
+    ∀ p ∈ safeTableW w, SafeBuilder p.2 := by
+  intro p hp
+  rcases List.mem_append.mp hp with h | h
+  · exact std_safe p h
+  · exact Funcs.Extra.extra_safe w hg p h
+
+def safeRegistryW {α : Type} (w : Funcs.Extra.World α) : Registry := mkRegistry (safeTableW w) []
+
+theorem safeRegistryW_safe {α : Type} (w : Funcs.Extra.World α) (hg : ∀ j p, Safe (w.gjson j p)) :
+    SafeRegistry (safeRegistryW w) := by
+  intro name b h
+  unfold safeRegistryW mkRegistry at h
+  dsimp only at h
+  split at h
+  · rename_i b' hb
+    simp only [Option.some.injEq] at h
+    subst h
+    unfold lookupTable at hb
+    cases hf : (safeTableW w).find? (fun x => x.1 == String.ofList name) with
+    | none => simp [hf] at hb
+    | some p =>
+      simp [hf] at hb
+      subst hb
+      exact ext_safe w hg p (List.mem_of_find?_eq_some hf)
+  · simp at h
+
+/-- `compile_total` / `eval_total` with `color`, `bar`, `load` and `json` included, for every world:
+    any float arithmetic (so whatever IEEE rounding does), either value of the colour / unicode
+    switches, any file system; the one assumption is that the gjson library call returns. -/
+theorem world_compile_eval_total {α : Type} (w : Funcs.Extra.World α) (hg : ∀ j p, Safe (w.gjson j p))
+    (opt : Bool) (t : List Char) (ctx : Ctx) :
+    ∃ stages errs v, compile (safeRegistryW w) opt t = .ok (stages, errs) ∧ (buildKey stages).run ctx = .ok v :=
+  eval_total (safeRegistryW w) (safeRegistryW_safe w hg) opt t ctx
+
+/-- A concrete world (exact rational arithmetic, colours on, one file, gjson answering "") in which a
+    template over the four helpers compiles and evaluates. -/
+example : ∃ stages errs v,
+    compile (safeRegistryW (α := Int) ⟨⟨id, (· + ·), (· - ·), (· * ·), (· / ·), id, id, (fun a b => decide (a ≤ b)), (· == ·), id, id, id, id, id⟩,
+      ⟨true, true⟩, false, (fun p => if p = ascii "f" then some (ascii "x") else none), fun _ _ => .ret []⟩) true
+      "{color red {0}}{bar {0} 10 5}{load f}{json a.b}".toList = .ok (stages, errs) ∧
+    (buildKey stages).run ⟨fun _ => ascii "3", fun _ => []⟩ = .ok v :=
+  world_compile_eval_total _ (fun _ _ => .ret _) true _ _
+
 /-- Every helper of `stdlib.StandardFunctions` (names regenerated from /repo) is accounted for: it is
-    either proved panic-free or listed as outside the model.  A helper added to the Go table makes
-    this fail. -/
+    proved panic-free (`safeTable`, or `Funcs.Extra.names` = the world-dependent four), or it is a
+    modelled helper that can answer `unmodelled`, or it is in the explicit list of helpers outside the
+    model (`format` = `fmt.Sprintf`, and the time helpers).  A helper added to the Go table makes this fail. -/
 theorem functions_covered :
     Gen.stdFunctionNames.all (fun n =>
-      (safeTable.map (·.1)).contains n || unmodelledNames.contains n ||
-      ["format", "json", "color", "bar", "load", "time", "timeformat", "timeattr", "buckettime", "duration",
-       "durationformat"].contains n) = true := by decide
+      (safeTable.map (·.1)).contains n || Funcs.Extra.names.contains n || unmodelledNames.contains n ||
+      ["format", "time", "timeformat", "timeattr", "buckettime", "duration", "durationformat"].contains n) = true := by decide
+
+/-- `Funcs.Extra.names` are exactly the names of `Funcs.Extra.table` (in every world). -/
+theorem extra_names {α : Type} (w : Funcs.Extra.World α) : (Funcs.Extra.table w).map (·.1) = Funcs.Extra.names := rfl
 
 /-- Non-vacuity: a malformed template with stray braces, a trailing backslash and an unknown function
     compiles (reporting errors) and evaluates. -/
@@ -223,6 +281,33 @@ theorem repeat_eq_model (char : Bytes) (a1 : Stage) :
     by_cases h1 : count < 0 <;> by_cases h2 : char.length > 0 <;>
       by_cases h3 : count > Int.tdiv 1048576 (char.length : Int) <;>
       simp [h1, h2, h3, pure] <;> split <;> rfl
+
+/-! ### `{bar}` : the block-writing loop of `termunicode.BarWrite` behind `maxLen > maxBarLen`; `{color}` -/
+
+/-- A constant length that passes the guard of `kfBar` is at most 65536, so `maxLen * barUnicodePartCount`
+    cannot wrap and (the scaled value being at most 1) the loop writes at most `maxLen` blocks. -/
+theorem bar_guard_safe (maxLen : Int) (h : Gen.C08.barLenGuard maxLen = false) :
+    maxLen ≤ 65536 ∧ maxLen * C14.barUnicodePartCount ≤ maxInt64 ∧
+    (0 ≤ maxLen → wrap64 (maxLen * C14.barUnicodePartCount) = maxLen * 9) := by
+  unfold Gen.C08.barLenGuard Gen.C08.maxBarLen at h
+  simp only [decide_eq_false_iff_not, Int.not_lt] at h
+  have hpc : C14.barUnicodePartCount = 9 := rfl
+  rw [hpc]
+  unfold maxInt64 wrap64
+  omega
+
+/-- The cap and the colour table of the hand model are the ones of the code. -/
+theorem draw_eq_model (maxLen : Int) :
+    Gen.C08.maxBarLen = Funcs.Draw.maxBarLen ∧
+    Gen.C08.barLenGuard maxLen = decide (maxLen > Funcs.Draw.maxBarLen) ∧
+    Gen.C08.barCalls = ["termunicode.BarWrite(&sb, scaler.Scale(val, 0, maxVal), maxLen)"] ∧
+    Gen.C08.colorMap = Funcs.Draw.colorMap ∧
+    Gen.C08.colorLookup = ["colorMap[strings.ToLower(s)]"] := by
+  refine ⟨rfl, rfl, rfl, ?_, rfl⟩
+  decide +kernel
+
+example : Gen.C08.barLenGuard 65536 = false ∧ Gen.C08.barLenGuard 65537 = true ∧
+    Gen.C08.barLenGuard (-9223372036854775808) = false := by decide
 
 /-! ### `{substr}` : `s[left:right]` behind the clamping statements -/
 
